@@ -700,3 +700,49 @@ func verifH_C02_path_items() {
 	}
 	verifReach("end")
 }
+
+//verif:harness id=C02 tier=quick,thorough witness=end bounds="the same reference text in two documents while one of them is being resolved: root B -> '#/components/schemas/A' (root's A, an object whose property refers to x2.json#/components/schemas/UseA), and x2.json's UseA refers to '#/components/schemas/A' (x2's own A); entry through the component B, through A directly, or through an operation; each reference resolves to the A of the file that contains it"
+func verifH_C02_same_fragment_in_progress() {
+	files := map[string]string{
+		"/r/x2.json": `{"components":{"schemas":{"A":{"type":"string","minLength":6},"UseA":{"type":"object","properties":{"n":{"$ref":"#/components/schemas/A"}}}}}}`,
+	}
+	comps := `"A":{"type":"object","properties":{"x":{"$ref":"x2.json#/components/schemas/UseA"}}}`
+	paths := `{}`
+	switch verifChoose("entry", 3) {
+	case 0:
+		comps += `,"B":{"$ref":"#/components/schemas/A"}`
+	case 1:
+		comps = `"0B":{"$ref":"#/components/schemas/A"},` + comps // B sorts before A
+	case 2:
+		paths = `{"/a":{"get":{"operationId":"op","responses":{"200":{"description":"d","content":{"application/json":{"schema":{"$ref":"#/components/schemas/A"}}}}}}}}`
+	}
+	rootText := `{"openapi":"3.0.0","info":{"title":"t","version":"1"},"paths":` + paths + `,"components":{"schemas":{` + comps + `}}}`
+	rootLoc := &url.URL{Path: "/r/doc.json"}
+	loader := NewLoader()
+	loader.IsExternalRefsAllowed = true
+	loader.ReadFromURIFunc = func(_ *Loader, u *url.URL) ([]byte, error) {
+		if u.Path == rootLoc.Path {
+			return []byte(rootText), nil
+		}
+		if t, ok := files[u.Path]; ok {
+			return []byte(t), nil
+		}
+		return nil, errors.New("no such file")
+	}
+	doc, err := loader.LoadFromDataWithPath([]byte(rootText), rootLoc)
+	verifAssert(err == nil && doc != nil, "C02 in progress: the document loads")
+	if err != nil || doc == nil {
+		return
+	}
+	a := doc.Components.Schemas["A"]
+	ok := a != nil && a.Value != nil && a.Value.Properties["x"] != nil && a.Value.Properties["x"].Value != nil
+	verifAssert(ok, "C02 in progress: the root's A and its external property are resolved")
+	if !ok {
+		return
+	}
+	n := a.Value.Properties["x"].Value.Properties["n"]
+	verifKnown("C02-in-progress-set-keyed-by-text", true)
+	verifAssert(n != nil && n.Value != nil && n.Value.Type.Is("string") && n.Value.MinLength == 6, "C02 in progress: the reference inside the external file resolves to that file's own A, not to the root's A that is being resolved")
+	verifKnown("C02-in-progress-set-keyed-by-text", false)
+	verifReach("end")
+}
